@@ -99,6 +99,13 @@ section
 variable {K : Type} [Add K] [Sub K] [Mul K] [Div K] [Neg K] [Zero K] [NatCast K]
 variable {N nl d : Nat}
 
+/-- What the library is handed: an iterator range `begin[0..N-1]` whose ELEMENTS `ids x = begin[x]` are ids of an
+    arbitrary id space `0..M-1` (not necessarily `0, 1, .., N-1`), and a callback `cb` defined on ids.  Every routine
+    below works with POSITIONS `x, y : Fin N` in the range and evaluates the callback as
+    `callback.distance(begin[x], begin[y])`: this is the `δ` all of them take.  (The correspondence hands the real code
+    such non-identity ranges with NaN / far-away decoy ids in between, `checks/c11.py`.) -/
+def rangeCallback {M : Nat} (cb : Mat M M K) (ids : Fin N → Fin M) : Mat N N K := fun x y => cb (ids x) (ids y)
+
 /-- the callback restricted to the landmarks: `callback.distance(begin[landmarks[i]], begin[landmarks[j]])` -/
 def subCallback (δ : Mat N N K) (lm : Fin nl → Fin N) : Mat nl nl K := fun a b => δ (lm a) (lm b)
 
